@@ -400,6 +400,35 @@ def run_one(ck, prog):
         ctx = prog.ctx(tb)
         used = {z[2].split("::")[-1] for bb, t in ctx.cfg.calls() for a in ctx.args(bb) for z in walk_deep(a, ctx.prov) if z[0] == "const" and z[2] and "Dirent::" in z[2]}
         ck.ob("C14.6", "dirent-uses-offset-constants", {"LEN_OFFSET", "HEADER_SIZE", "NAME_START"} <= used, fn=tb["path"], detail=f"offset constants used in the parser: {sorted(used)}")
+        # a record is refused only when it cannot be a record: the kernel's d_reclen is 19 + name + NUL rounded up to 8 (24 .. 280), so a
+        # test of the length read from the record (or of the bytes handed in) against a constant that leads away from every `Some` must be
+        # false for each of those lengths - an entry refused here ends the iteration early (every later entry of the directory is lost)
+        somes = [b["id"] for b in tb["blocks"] if b["id"] in ctx.cfg.live_blocks() and
+                 any(st["k"] == "assign" and st["dst"]["l"] == 0 and not st["dst"].get("p") and st["rv"]["k"] == "agg" and st["rv"].get("variant") == "Some" for st in b["stmts"])]
+        if ck.anchor("C14.6", "dirent-parser-some-return", somes):
+            VALID = range(24, 281, 8)
+            OPS = {"Lt": lambda a, b: a < b, "Le": lambda a, b: a <= b, "Gt": lambda a, b: a > b, "Ge": lambda a, b: a >= b, "Eq": lambda a, b: a == b, "Ne": lambda a, b: a != b}
+            SWAP = {"Lt": "Gt", "Le": "Ge", "Gt": "Lt", "Ge": "Le", "Eq": "Eq", "Ne": "Ne"}
+            bad = []
+            for sb in ctx.cfg.live_blocks():
+                if ctx.cfg.term(sb)["k"] != "switch":
+                    continue
+                for e in ctx.cfg.succ[sb]:
+                    if set(somes) & ctx.cfg.reachable_from(e.dst) or not set(somes) & ctx.cfg.reachable_from(sb):
+                        continue
+                    for f in ctx.edge_facts(e):
+                        if f[0] != "cmp" or f[1] not in OPS:
+                            continue
+                        for x, k, op in ((f[2], fold(f[3]), f[1]), (f[3], fold(f[2]), SWAP[f[1]])):
+                            if k is None or fold(x) is not None:
+                                continue
+                            sx = show(x)
+                            is_reclen = "u16" in sx or "d_reclen" in sx
+                            is_buflen = isinstance(strip_casts(x), tuple) and strip_casts(x)[0] in ("len", "ptrmeta") or sx.startswith("len(")
+                            if (is_reclen or is_buflen) and any(OPS[op](v, k) for v in VALID):
+                                bad.append((ctx.site(sb), f"{sx[:60]} {op} {k}", [v for v in VALID if OPS[op](v, k)][:3]))
+            ck.ob("C14.6", "dirent-refused-only-when-it-cannot-be-a-record", not bad, fn=tb["path"], site=bad[0][0] if bad else None,
+                  detail=f"the parser gives up on `{bad[0][1]}`, which holds for valid record lengths such as {bad[0][2]} (d_reclen is 19 + name + NUL rounded up to 8: 24..280)" if bad else "")
     # the entry's name is copied byte by byte up to its first NUL: every store into the name array writes position i with the byte read
     # at position i of the record's name area, under `that byte != 0`, i counting the positions one at a time from 0; nothing else
     # writes the name (a bulk copy of a length inferred some other way - e.g. a word-at-a-time zero test - does not establish that)
